@@ -10,6 +10,9 @@ mod lw;
 mod lwprops;
 mod props;
 mod c06;
+mod ew;
+mod eprops;
+mod props_ew;
 
 use explore::*;
 use report::*;
